@@ -78,6 +78,8 @@ CLAIMED = {
 NOT_YET = "check not built yet in this commit (contracts for the functions it depends on are still being written); see DESIGN.md section 4 for the plan"
 NA = {
  "C15": "relates two text-level functions (fmt-based printer, participle-driven parser); no contract on a function in /repo can express it (DESIGN.md section 4, C15)",
+ "C02": "relational property over two authorizations (token T and T extended with block B): a contract on one call cannot state 'if the second succeeds then so does the first'. The facts that carry the argument are proved under other properties (C03: a block's facts and rules reach only that block's private world; C04: success needs every check to pass and an allow policy), but the monotonicity argument itself is not machine-checked, so nothing is claimed (DESIGN.md 9.2)",
+ "C12": "relational property (the outcome is invariant under permutation of facts, rules, checks, queries, consistent renaming of variables, duplication, and repetition of Authorize): it compares two executions on related inputs, which one-call contracts cannot express; set semantics of fact insertion (C05) and the frames of Authorize (C03, C13) are proved but do not add up to the statement (DESIGN.md 9.2)",
 }
 ALL = ["C%02d" % i for i in range(1, 21)]
 
